@@ -195,10 +195,10 @@ def exponent_cases(R, fam, quick):
     allt = [(a, b, c) for a in range(hi + 1) for b in range(hi + 1) for c in range(hi + 1) if b + c > 0]
     must = [(0, 1, 0), (0, 0, 1), (1, 1, 1), (0, 2, 0), (1, 0, 2), (2, 1, 0), (3, 3, 3), (2, 2, 2)]
     if quick:
-        k = (3 if fam == "TruncNormal" else 6) if fam in SLOW else 14
+        k = (2 if fam == "TruncNormal" else 4) if fam in SLOW else 12
         rest = [t for t in allt if t not in must]
         R.shuffle(rest)
-        trig = (must[:5] if fam in SLOW else must) + rest[:k]
+        trig = (must[:4] if fam in SLOW else must) + rest[:k]
     else:
         trig = allt + [(a, b, c) for (a, b, c) in [(4, 1, 1), (0, 5, 0), (0, 0, 5), (5, 2, 1), (1, 4, 4), (2, 5, 3)]]
         if fam in SLOW:
@@ -207,7 +207,7 @@ def exponent_cases(R, fam, quick):
     amax = 2 if quick else 3
     exps = [(a, d) for a in range(amax + 1) for d in (1, 2, 3)]
     if fam in SLOW and quick:
-        exps = exps[:4]
+        exps = exps[:2]
     mix = [(0, 1, 0, 1), (1, 0, 2, 1)] if fam in ("Normal", "Uniform") else []
     return trig, exps, mix
 
@@ -236,7 +236,7 @@ def run(tier):
         "values of transcendental expectations are compared numerically with mpmath quadrature (tolerances: exact "
         "mode %s, rounded mode %s, relative to the scale of the expectation) — evidence, not proof" % (L.TOL["exact"], L.TOL["rounded"]),
         "AssertionError / ZeroDivisionError / NotImplementedError / FunctionalAssignmentException are refusals, "
-        "not wrong answers (removable singularities of the Uniform / DiscreteUniform transforms at frequency 0)",
+        "not wrong answers (e.g. DiscreteUniform with Id >= 1: im(result) is not syntactically 0; Categorical has no cf)",
         "the Lean moment theorems are stated for finitely supported (signed) laws; the passage to laws with a "
         "density is paper mathematics",
         "time-outs are counted and never a verdict",
@@ -294,6 +294,15 @@ def structural(chk, quick):
             ok = (not got.get("ok")) and got.get("error", {}).get("etype") == "AssertionError"
         else:
             ok = got.get("ok") and got["table"] == exp_table
+        if ok and got.get("ok"):
+            # where each term's transform value comes from (cf / raw moment at frequency 0 / derivative of cf)
+            calls = [tuple(x) for x in got["calls"]]
+            src = ans["sources"]
+            ok = (calls.count(("get_moment", str(a))) == src.count("moment")
+                  and sum(1 for x in calls if x[0] == "get_moment") == src.count("moment")
+                  and sum(1 for x in calls if x[0] == "cf") == src.count("cf") + src.count("cf_deriv"))
+            if not ok:
+                chk.count("structural:trig:source-DIFF")
         chk.count("structural:trig:" + ("agree" if ok else "DIFF"))
         if ok and len(merged) >= 2:
             chk.nontrivial.add(("table", a, b, c))
@@ -461,7 +470,7 @@ def build_program_cases(R, quick):
         cases.append(dict(text=text, goals=goals, shape="benchmark:" + b, expect="value"))
     fixed_mix = ("y = 0\nwhile true:\n    u = Normal(0, 1)\n    s = Sin(u)\n    f = Exp(u)\n    y = s*f\nend\n")
     cases.append(dict(text=fixed_mix, goals=[[["y", 1]]], shape="mix", expect="mix"))
-    n_gen = 51 if quick else 425
+    n_gen = 34 if quick else 425
     shapes = list(L.SHAPES)
     for i in range(n_gen):
         shape = shapes[i % len(shapes)]
